@@ -846,12 +846,11 @@ fn gen_case(r: &mut Rng, tier: &str, slice_only: bool) -> Case {
             }
             let pcells = gen_points(r, n, w, grid, &mut scratch);
             let (prepr, _) = pick_repr_tag(r, false);
-            // the glue never looks at the points' tag: mostly the honest one, sometimes another
+            // points must be announced as double (fix eb2545c): mostly so, sometimes another tag -> BAD_TYPE
             let ptag = if r.chance(4, 5) { 2 } else { r.below(2) as u8 };
             c.points = Some(wrap(r, prepr, ptag, n, w, pcells));
-            if ptag != 2 {
-                // finding candidate reported with C17: the glue never checks the points' Type tag
-                c.kf = "ffi-points-type-unchecked";
+            if ptag != 2 && special.is_empty() {
+                special = "points-not-double".into();
             }
             // weights: same length, or the mismatched-length stream
             let mut wn = n;
